@@ -635,6 +635,10 @@ func (e *fnEnc) evalBin(x *EBin, env *specEnv) SVal {
 	}
 	switch x.Op {
 	case "+", "-", "*":
+		if s == SAStr && x.Op == "+" {
+			f := e.declareFun("aconcat", []Sort{SAStr, SAStr}, SAStr)
+			return SVal{t: app(SAStr, f, a, b), typ: typ}
+		}
 		return SVal{t: app(s, x.Op, a, b), typ: typ}
 	case "/":
 		if s == SReal {
